@@ -265,6 +265,7 @@ func (w *World) processReest(i int, msg *lnwire.ChannelReestablish) error {
 		case "sig":
 			p.awaitingRevoke = true
 			if freshSig && idx == len(got)-1 {
+				p.lastWasRevoke = false
 				p.lastSigCovered = nil
 				for _, h := range w.h {
 					if h.By == i && h.sent {
